@@ -78,6 +78,12 @@ def gen_plan(seed, tier):
             for _ in range(r.randint(2, 4))]
   frames = [(fs, p) for fs, p in frames if fs["kind"] not in ("snap", "llc")] \
       or [(G.gen_frame(r), 1)]
+  for fs, _ in frames:
+    # Ethernet padding after the IP datagram: the packet_in shows the frame
+    # as received, what is buffered / forwarded is the frame less its padding
+    if fs["kind"] in ("udp", "tcp") and not fs.get("vlan") \
+        and not fs.get("frag") and r.chance(0.3):
+      fs["pad"] = r.pick([4, 6, 18])
   steps = []
   # optionally a flow that sends to the controller
   if r.chance(0.6):
